@@ -51,3 +51,47 @@ Proof.
     by (apply file_roundtrip; assumption).
   split; [exact Hs|]. unfold build. apply build_reads_of_grammar. exact Hs.
 Qed.
+
+(** ---------- final newline or none ---------- *)
+Lemma chunks_acc_app_lines ls : forall tail, Forall (fun l => ~ In LF l) ls ->
+  chunks_acc [] (concat (map (fun l => l ++ [LF]) ls) ++ tail) = map (fun l => l ++ [LF]) ls ++ chunks_acc [] tail.
+Proof.
+  induction ls as [|l ls IH]; intros tail H; cbn [map concat app]; [reflexivity|].
+  inversion H as [|? ? Hl Hr]; subst. rewrite <- !app_assoc. rewrite chunks_acc_take.
+  pose proof (take_line_app l ([LF] ++ concat (map (fun l0 => l0 ++ [LF]) ls) ++ tail)) as Ht.
+  pose proof (take_line_split l) as Hs. destruct (take_line l) as [[t rest] found]. destruct Hs as (Hb & Hnf & Hf).
+  destruct found.
+  - destruct (Hf eq_refl) as (t0 & -> & _). exfalso. apply Hl. rewrite Hb. apply in_or_app. left. apply in_or_app. right. left. reflexivity.
+  - destruct (Hnf eq_refl) as [-> _]. rewrite app_nil_r in Hb. subst t. rewrite Ht. cbn [app take_line]. rewrite N.eqb_refl.
+    cbn [rev app]. f_equal. apply IH. exact Hr.
+Qed.
+
+(** C12: the last line may lack its terminator: the same texts are read back *)
+Theorem raw_reads_no_final_newline eol init last : eol = [LF] \/ eol = [CR; LF] ->
+  Forall (line_ok eol) init -> last <> [] -> ~ In LF last -> utf8_valid last = true ->
+  texts (raw_reads (src_of_bytes (join_lines eol init ++ last))) = init ++ [last] /\
+  all_ok (raw_reads (src_of_bytes (join_lines eol init ++ last))).
+Proof.
+  intros He Hall Hne Hnl Hu. rewrite raw_reads_chunks. unfold chunks, join_lines.
+  assert (Hch: chunks_acc [] (concat (map (fun l => l ++ eol) init) ++ last) = map (fun l => l ++ eol) init ++ [last]).
+  { assert (Hlast: chunks_acc [] last = [last]).
+    { rewrite chunks_acc_take. pose proof (take_line_split last) as Hs. destruct (take_line last) as [[t rest] found].
+      destruct Hs as (Hb & Hnf & Hf). destruct found.
+      - destruct (Hf eq_refl) as (t0 & -> & _). exfalso. apply Hnl. rewrite Hb. apply in_or_app. left. apply in_or_app. right. left. reflexivity.
+      - destruct (Hnf eq_refl) as [-> _]. rewrite app_nil_r in Hb. subst t. cbn [rev app]. destruct last; [contradiction|reflexivity]. }
+    destruct He as [->| ->].
+    - rewrite chunks_acc_app_lines, Hlast; [reflexivity|]. eapply Forall_impl; [|exact Hall]. cbn beta. intros l (H & _). exact H.
+    - replace (map (fun l => l ++ [CR; LF]) init) with (map (fun l => l ++ [LF]) (map (fun l => l ++ [CR]) init))
+        by (rewrite map_map; apply map_ext; intros; rewrite <- app_assoc; reflexivity).
+      rewrite chunks_acc_app_lines, Hlast; [reflexivity|]. rewrite Forall_forall in *. intros l Hl. apply in_map_iff in Hl as (l0 & <- & Hl0).
+      destruct (Hall l0 Hl0) as (H & _). intros Hin. apply in_app_or in Hin as [Hin|[Hin|[]]]; [contradiction|unfold CR, LF in Hin; lia]. }
+  rewrite Hch. unfold texts, all_ok. rewrite !map_app, !map_map. cbn [map].
+  assert (Hrl: read_of last = ROk (N.of_nat (length last)) last).
+  { rewrite (read_of_prefix last Hnl), Hu. reflexivity. }
+  rewrite Hrl. split.
+  - f_equal. rewrite <- (map_id init) at 2. apply map_ext_in. intros l Hl. rewrite Forall_forall in Hall. destruct (Hall l Hl) as (H1 & H2 & H3).
+    unfold read_of. rewrite H2. cbn [negb]. apply strip_eol_line; assumption.
+  - apply Forall_app. split; [|repeat constructor].
+    rewrite Forall_forall in *. intros r Hr. apply in_map_iff in Hr as (l & <- & Hl). destruct (Hall l Hl) as (H1 & H2 & H3).
+    unfold read_of. rewrite H2. exact I.
+Qed.
